@@ -48,7 +48,7 @@ package leader
 //@ field kvElection.state              atomic write_under(mu) type string props C18 inv C18.state_domain: v == "INIT" || v == "CANDIDATE" || v == "LEADER" || v == "FOLLOWER" || v == "DEMOTED" || v == "STOPPED"
 //@ field kvElection.token              atomic write_under(mu) type string props C05,C01 inv C05.token_is_published: OwnTok(v) || (v == "" && !this.revSet)
 //@ field kvElection.leaderID           atomic type string props C18 onstore C18.leader_consistent_id: v == this.cfg.InstanceID || (held(this.mu) == 2 && !this.isLeader)
-//@ field kvElection.revision           atomic props C01,C05,C07,C18 inv C01.revision_is_own_write: Own(v) || (v == 0 && !this.revSet) onstore C01.zero_revision_only_at_construction: v == 0 ==> caller.inConstructor
+//@ field kvElection.revision           atomic props C01,C05,C07,C18 inv C01.revision_is_own_write: Own(v) || (v == 0 && !this.revSet)
 //@ field kvElection.lastHeartbeat      atomic type time.Time
 //@ field kvElection.lastTransition     atomic type time.Time
 //@ field kvElection.leaderStartTime    atomic type time.Time
@@ -252,8 +252,7 @@ package leader
 
 //@ func (e *kvElection) logWithContext(ctx)
 //@   tags C09
-//@   flag pure
-//@   requires C09.nil_ctx: ctx != nil
+//@   flag pure untagged_panics
 
 //@ func (e *kvElection) getMetricsLabels()
 //@   flag pure
@@ -285,7 +284,7 @@ package leader
 
 //@ spec CtxClass(err) = ErrIs(err, context.Canceled) || ErrIs(err, context.DeadlineExceeded)
 //@ spec ConfigClass(err) = ErrIs(err, ErrInvalidConfig) || ErrIs(err, ErrPermissionDenied) || ErrIs(err, ErrBucketNotFound)
-//@ spec TimeoutClass(err) = ErrAs(err, *TimeoutError)
+//@ spec TimeoutClass(err) = istype(err, *TimeoutError) || ErrAs(err, *TimeoutError)
 
 //@ func IsPermanentError(err)
 //@   tags C15 C03
@@ -294,7 +293,7 @@ package leader
 //@   ensures C15.ctx_transient: err != nil && CtxClass(err) ==> !result
 //@   ensures C15.timeout_transient_wrapped: TimeoutClass(err) ==> !result
 //@   ensures C15.config_perm_wrapped: err != nil && !CtxClass(err) && !TimeoutClass(err) && ConfigClass(err) ==> result
-//@   ensures C15.defines_Permanent: result == Permanent(err)
+//@   defines result == Permanent(err)
 
 //@ func IsTransientError(err)
 //@   tags C15
@@ -332,12 +331,12 @@ package leader
 //@   on call fn assert C17.no_call_after_permanent: !lastPerm
 //@   on call fn assert C17.no_call_after_cancel: !sawCancel
 //@   on call fn assert C17.at_most_max_attempts: cfg.MaxAttempts > 0 ==> ncalls < cfg.MaxAttempts
-//@   on call fn assert C17.waits_between_calls: waitedSinceCall
+//@   on call fn assert C17.waits_between_calls: ncalls == 0 || waitedSinceCall
 //@   on call CircuitBreaker.Call assert C17.no_call_after_success: !lastNil
 //@   on call CircuitBreaker.Call assert C17.no_call_after_permanent: !lastPerm
 //@   on call CircuitBreaker.Call assert C17.no_call_after_cancel: !sawCancel
 //@   on call CircuitBreaker.Call assert C17.at_most_max_attempts: cfg.MaxAttempts > 0 ==> ncalls < cfg.MaxAttempts
-//@   on call CircuitBreaker.Call assert C17.waits_between_calls: waitedSinceCall
+//@   on call CircuitBreaker.Call assert C17.waits_between_calls: ncalls == 0 || waitedSinceCall
 //@   on ret fn as r set lastNil = r.result == nil
 //@   on ret fn set ncalls = ncalls + 1
 //@   on ret fn set waitedSinceCall = false
@@ -425,7 +424,7 @@ package leader
 
 //@ func (e *kvElection) becomeLeader(token, rev)
 //@   tags C02 C05 C08 C18 C19 C09
-//@   requires C02.claim_backed_by_own_write: Own(rev) && PubTok(rev) == token && PubID(rev) == e.cfg.InstanceID && OwnTok(token)
+//@   requires C02.claim_backed_by_own_write: Own(rev) && rev != 0 && PubTok(rev) == token && PubID(rev) == e.cfg.InstanceID && OwnTok(token)
 //@   ghost inBecomeLeader Bool = true
 //@   ghost wasLeaderAtLock Bool = false
 //@   ghost promoteSet Bool = false
@@ -441,8 +440,15 @@ package leader
 //@   on call onPromote as c assert C19.derived_from_election_ctx: origin(c.arg0, "ctx:derived") && origin(ctxof(c.arg0), "field:kvElection.ctx")
 //@   on call cancel assert C19.not_cancelled_early: calls(onPromote) == 1
 //@   on call onPromote assert C08.promote_once_per_activation: calls(onPromote) == 1
-//@   ensures C08.promote_once: spawns(becomeLeader$3) == (promoteSet ? 1 : 0)
-//@   ensures C02.claims: calls(updateIsLeaderMetric) == 1
+//@   ghost claimed Bool = false
+//@   ghost stateL Int = 0
+//@   ghost ctxNilL Bool = false
+//@   on lock kvElection.mu set stateL = e.state
+//@   on lock kvElection.mu set ctxNilL = e.ctx == nil
+//@   on store kvElection.isLeader as s when s.value set claimed = true
+//@   ensures C08.promote_once: spawns(becomeLeader$3) == ((claimed && promoteSet) ? 1 : 0)
+//@   ensures C09.no_promote_after_stop: stateL == "STOPPED" || ctxNilL ==> !claimed && spawns(becomeLeader$1) == 0 && spawns(becomeLeader$2) == 0 && spawns(becomeLeader$3) == 0
+//@   ensures C02.claims_when_running: stateL != "STOPPED" && !ctxNilL ==> claimed && spawns(becomeLeader$1) == 1 && spawns(becomeLeader$2) == 1
 
 //@ func (e *kvElection) becomeFollower()
 //@   tags C03 C07 C08 C18 C19 C06
@@ -457,7 +463,10 @@ package leader
 //@   on call cancel set termCancelled = true
 //@   on unlock kvElection.mu assert C03.claim_cleared_at_unlock: !e.isLeader
 //@   ensures C19.cancelled_on_demotion: cleared ==> termCancelled
-//@   ensures C06.failed_round_rearms: ctxSeen && !watcherSeen ==> spawns(becomeFollower$1) == 1
+//@   ghost stateL Int = 0
+//@   on lock kvElection.mu set stateL = e.state
+//@   ensures C06.failed_round_rearms: stateL != "STOPPED" && ctxSeen && !watcherSeen ==> spawns(becomeFollower$1) == 1
+//@   ensures C09.stopped_stays_stopped: stateL == "STOPPED" ==> spawns(becomeFollower$1) == 0 && calls(recordTransition) == 0
 
 //@ func (e *kvElection) Stop()
 //@   tags C09 C08 C18 C01 C20
@@ -465,8 +474,10 @@ package leader
 //@   ghost wasLeaderL Bool = false
 //@   ghost ctxNilL Bool = false
 //@   ghost demoteNilSeen Bool = false
-//@   on lock kvElection.mu set wasLeaderL = e.isLeader
-//@   on lock kvElection.mu set ctxNilL = e.ctx == nil
+//@   ghost firstLock Bool = true
+//@   on lock kvElection.mu when firstLock set wasLeaderL = e.isLeader
+//@   on lock kvElection.mu when firstLock set ctxNilL = e.ctx == nil
+//@   on lock kvElection.mu set firstLock = false
 //@   on call cancel set e.stopped = true
 //@   on load kvElection.onDemote as l when l.value == nil set demoteNilSeen = true
 //@   on call wg.Wait assert C09.stop_waits_time_boxed: inspawn()
@@ -515,6 +526,7 @@ package leader
 
 //@ func (e *kvElection) validateToken(ctx)
 //@   tags C04 C13 C01
+//@   flag spawn_exempt:validateToken$1
 //@   requires C09.nil_ctx: ctx != nil
 //@   ghost tok Int = 0
 //@   ghost ntok Int = 0
@@ -571,8 +583,8 @@ package leader
 
 //@ func (e *kvElection) heartbeatLoop(ctx)
 //@   tags C03 C12 C05 C01 C07
+//@   flag spawn_exempt:heartbeatLoop$1
 //@   requires C09.nil_ctx: ctx != nil
-//@   requires C12.count_starts_at_zero: e.healthFailureCount == 0
 //@   requires C01.term_started: e.revSet
 //@   ghost streak Int = 0
 //@   ghost cfail Int = 0
@@ -670,6 +682,7 @@ package leader
 //@   on call handleValidationFailure set validation_failed = ran && (lastErr != nil || !lastValid)
 //@   on call handleValidationFailure set hvfCalled = true
 //@   loop 0 invariant C04.validation_fail_count: 0 <= consecutiveFailures && consecutiveFailures <= 1 && consecutiveFailures == vfail
+//@   loop 0 invariant C04.no_pending_demotion: !hvfCalled && (ran ==> (lastErr != nil || lastValid))
 //@   on backedge 0 assert C04.invalid_demotes_now: ran ==> (lastErr != nil || lastValid)
 //@   on return assert C04.loop_demotes: ran && ((lastErr == nil && !lastValid) || vfail >= 2) ==> hvfCalled
 
